@@ -225,7 +225,7 @@ def run_tlc(module, cfg=None, env=None, workers=None, timeout=1800, name=None, t
     e["JAVA_TOOL_OPTIONS"] = jopts
     if env:
         e.update({k: str(v) for k, v in env.items()})
-    cmd = ["java", "-XX:+UseParallelGC", "-Xmx" + heap] + (["-DTLA-Library=" + SPEC] if module_dir else []) + ["-cp",
+    cmd = ["java", "-XX:+UseParallelGC", "-Xmx" + heap, "-Djava.io.tmpdir=" + meta] + (["-DTLA-Library=" + SPEC] if module_dir else []) + ["-cp",
            "/opt/veriftools/tla/tla2tools.jar:/opt/veriftools/tla/CommunityModules-deps.jar", "tlc2.TLC",
            "-workers", str(workers), "-metadir", meta, "-cleanup", "-noGenerateSpecTE",
            "-config", cfg]
